@@ -45,6 +45,8 @@ ASSUMPTIONS = [
 ]
 
 KF_JV = 'KF-extract_jac_vec-rank'
+KF_HESS_INT = 'KF-init_hessian-integer-dtype'          # init_hessian keeps an integer seed dtype: non-polynomial programs are truncated
+KF_INT32 = 'KF-init-drivers-small-integer-dtype'       # init_jacobian/jac_vec/hess_vec convert only the platform int (dtype == int)
 
 BU = P.BackendUTPM(algopy)
 _INFO = {}
@@ -135,19 +137,49 @@ def _compare(got, ref, scale, tol, stats, what):
                         % (what, tuple(int(i) for i in pos), got[pos].item(), ref[pos].item(), abs(got[pos] - ref[pos]), tol, scale))
 
 
+def _shape(case):
+    return tuple(case.get('xshape') or (case['N'],))
+
+
 def _seed(case):
-    """the point as the caller passes it (ndarray of the drawn dtype, or a list)"""
-    x = case['x'].copy()
-    return x.tolist() if case.get('as_list') else x
+    """the point as the caller passes it: ndarray of the drawn dtype, shape (vector, or rank >= 2 with N entries) and memory
+    layout, or a nested list"""
+    x = case['x'].reshape(_shape(case))
+    if case.get('as_list'):
+        return x.tolist()
+    return P.lay(x, case.get('xlayout'), case.get('xlayout_perm'))
+
+
+def _vpass(case, v=None):
+    """the direction as passed: full shape of x or a broadcastable form, in its own memory layout; 0-d -> Python scalar"""
+    v = np.asarray(case['v'] if v is None else v)
+    if v.ndim == 0:
+        return v.item()
+    return P.lay(v, case.get('vlayout'), case.get('vlayout_perm'))
+
+
+def _veff(case):
+    """the direction the call means: v broadcast to the shape of x, flattened in C order like the seed"""
+    return np.broadcast_to(np.asarray(case['v']), _shape(case)).reshape(-1)
 
 
 def _kw(case):
     return {'dtype': float} if case.get('dtype_arg') == 'float' else {}
 
 
-def _evaluate(case, X):
+def _tol(case, driver, base):
+    """float32 seeds: init_jacobian / init_jac_vec / init_hess_vec document 'dtype is inferred from x' and init_hessian does
+    the same, so the arithmetic runs in single precision unless dtype=float is passed; init_tensor always computes in float64"""
+    if case['x'].dtype == np.float32 and driver != 'tensor' and not (case.get('dtype_arg') == 'float' and driver != 'hessian'):
+        return 1e-4
+    return base
+
+
+def _evaluate(case, X, flat=False):
     if not isinstance(X, UTPM):
         raise Violation('init_* returned %s' % type(X).__name__)
+    if len(_shape(case)) != 1 and not flat:
+        X = guard(lambda u: u.reshape((case['N'],)), X)          # the program works on the flattened (C order) seed
     Y = guard(P.run, case['prog'], X, BU)
     if not isinstance(Y, UTPM):
         raise Violation('the program returned %s for a UTPM argument' % type(Y).__name__)
@@ -166,6 +198,7 @@ def _poly_info(case, polys, **extra):
 # ---------------------------------------------------------------------------
 
 def prop_poly_jacobian(case, stats):
+    _note_steered(case, stats)
     N = case['N']
     polys = _polys(case)
     _poly_info(case, polys)
@@ -173,7 +206,8 @@ def prop_poly_jacobian(case, stats):
     X = guard(lambda s: UTPM.init_jacobian(s, **_kw(case)), _seed(case))
     Y = _evaluate(case, X)
     J = guard(UTPM.extract_jacobian, Y)
-    _compare(J, _ref_jacobian(polys, xf, N), _majorant(case, 1.0), 1e-10, stats, 'extract_jacobian(f(init_jacobian(x)))')
+    _compare(J, _ref_jacobian(polys, xf, N), _majorant(case, 1.0), _tol(case, 'jacobian', 1e-10), stats,
+             'extract_jacobian(f(init_jacobian(x)))')
 
 
 def prop_poly_jac_vec(case, stats):
@@ -182,8 +216,8 @@ def prop_poly_jac_vec(case, stats):
     polys = _polys(case)
     _poly_info(case, polys)
     xf = P.frac_point(case['x'])
-    v = case['v']
-    X = guard(lambda s, w: UTPM.init_jac_vec(s, w, **_kw(case)), _seed(case), v.copy())
+    v = _veff(case)
+    X = guard(lambda s, w: UTPM.init_jac_vec(s, w, **_kw(case)), _seed(case), _vpass(case))
     Y = _evaluate(case, X)
     r = guard(UTPM.extract_jac_vec, Y)
     J = _ref_jacobian(polys, xf, N)
@@ -191,40 +225,46 @@ def prop_poly_jac_vec(case, stats):
     ref = np.zeros(polys.shape)
     for idx in np.ndindex(*polys.shape):
         ref[idx] = float(sum(p_ * v_ for p_, v_ in zip([polys[idx].diff(j).eval(xf) for j in range(N)], vf)))
-    if not np.allclose(ref, J @ np.asarray(v, dtype=float), rtol=1e-9, atol=1e-9 * _majorant(case, 1.0 + np.abs(v))):
+    h = 1.0 + np.abs(np.asarray(v, dtype=float))
+    if not np.allclose(ref, J @ np.asarray(v, dtype=float), rtol=1e-9, atol=1e-9 * _majorant(case, h)):
         raise AssertionError('oracle self-check failed')
-    _compare(r, ref, _majorant(case, 1.0 + np.abs(np.asarray(v, dtype=float))), 1e-10, stats,
+    _compare(r, ref, _majorant(case, h), _tol(case, 'jac_vec', 1e-10), stats,
              'extract_jac_vec(f(init_jac_vec(x,v))) [%s output]' % case['out'])
 
 
 def prop_poly_hessian(case, stats):
+    _note_steered(case, stats)
     N = case['N']
     polys = _polys(case)
     _poly_info(case, polys)
     xf = P.frac_point(case['x'])
     X = guard(UTPM.init_hessian, _seed(case))
-    Y = _evaluate(case, X)
+    Y = _evaluate(case, X, flat=True)           # init_hessian ravels the seed itself
     H = guard(UTPM.extract_hessian, N, Y)
-    _compare(H, _ref_hessian(polys[()], xf, N), _majorant(case, 2.0), 1e-10, stats, 'extract_hessian(N, f(init_hessian(x)))')
+    _compare(H, _ref_hessian(polys[()], xf, N), _majorant(case, 2.0), _tol(case, 'hessian', 1e-10), stats,
+             'extract_hessian(N, f(init_hessian(x)))')
 
 
 def prop_poly_hess_vec(case, stats):
+    _note_steered(case, stats)
     N = case['N']
     polys = _polys(case)
     _poly_info(case, polys)
     xf = P.frac_point(case['x'])
-    v = case['v']
-    X = guard(lambda s, w: UTPM.init_hess_vec(s, w, **_kw(case)), _seed(case), v.copy())
+    v = _veff(case)
+    X = guard(lambda s, w: UTPM.init_hess_vec(s, w, **_kw(case)), _seed(case), _vpass(case))
     Y = _evaluate(case, X)
     r = guard(UTPM.extract_hess_vec, N, Y)
     poly = polys[()]
     vf = P.frac_point(v)
     g = [poly.diff(i) for i in range(N)]
     ref = np.array([float(sum(g[i].diff(j).eval(xf) * vf[j] for j in range(N))) for i in range(N)])
-    _compare(r, ref, _majorant(case, 1.0 + np.abs(np.asarray(v, dtype=float))), 1e-10, stats, 'extract_hess_vec(N, f(init_hess_vec(x,v)))')
+    _compare(r, ref, _majorant(case, 1.0 + np.abs(np.asarray(v, dtype=float))), _tol(case, 'hess_vec', 1e-10), stats,
+             'extract_hess_vec(N, f(init_hess_vec(x,v)))')
 
 
 def prop_poly_tensor(case, stats):
+    _note_steered(case, stats)
     N, d = case['N'], case['d']
     polys = _polys(case)
     _poly_info(case, polys, d=d)
@@ -242,6 +282,9 @@ def prop_poly_tensor(case, stats):
     if d == 2 and polys.shape == ():
         H = guard(UTPM.extract_tensor, N, Y)
         _compare(H, _ref_hessian(polys[()], xf, N), scale, 1e-10, stats, 'extract_tensor(N, f(init_tensor(2,x)))')
+        # a second extraction from the same y (and a second y) must give the same matrix (no state kept between calls)
+        H2 = guard(UTPM.extract_tensor, N, Y)
+        _compare(H2, _ref_hessian(polys[()], xf, N), scale, 1e-10, stats, 'second extract_tensor(N, y) from the same y')
 
 
 # ---------------------------------------------------------------------------
@@ -249,16 +292,23 @@ def prop_poly_tensor(case, stats):
 # ---------------------------------------------------------------------------
 
 _NS = st.sampled_from([1, 2, 2, 2, 3, 3, 3, 4, 4, 5, 5, 6])
+_INT_KINDS = ('int64', 'int32')
 
 
 @st.composite
-def _point(draw, N):
-    kind = draw(st.sampled_from(['int64', 'intfloat', 'real', 'real']))
-    if kind == 'real':
-        el = st.one_of(st.integers(-20, 20).map(lambda k: k / 8.0), gen.nice_floats(-2.5, 2.5))
-        return np.array(draw(st.lists(el, min_size=N, max_size=N)), dtype=float), kind
-    vals = draw(st.lists(st.integers(-4, 4), min_size=N, max_size=N))
-    return np.array(vals, dtype=np.int64 if kind == 'int64' else float), kind
+def _point(draw, N, smooth=False):
+    """(x, kind): integers stored as int64 / int32 / float64, reals stored as float64 / float32"""
+    kind = draw(st.sampled_from(['int64', 'int64', 'int32', 'intfloat', 'real', 'real', 'real', 'float32']))
+    if kind in ('real', 'float32'):
+        if smooth:
+            el = st.one_of(st.integers(-12, 12).map(lambda k: k / 8.0), gen.nice_floats(-1.5, 1.5))
+        else:
+            el = st.one_of(st.integers(-20, 20).map(lambda k: k / 8.0), gen.nice_floats(-2.5, 2.5))
+        x = np.array(draw(st.lists(el, min_size=N, max_size=N)), dtype=float)
+        return (x.astype(np.float32) if kind == 'float32' else x), kind
+    m = 2 if smooth else 4
+    vals = draw(st.lists(st.integers(-m, m), min_size=N, max_size=N))
+    return np.array(vals, dtype={'int64': np.int64, 'int32': np.int32, 'intfloat': float}[kind]), kind
 
 
 @st.composite
@@ -270,6 +320,61 @@ def _direction(draw, N, prefer_real=False):
         return np.array(vals, dtype=np.int64 if draw(st.booleans()) else float)
     el = st.one_of(st.integers(-16, 16).map(lambda k: k / 8.0), gen.nice_floats(-3.0, 3.0))
     return np.array(draw(st.lists(el, min_size=N, max_size=N)), dtype=float)
+
+
+def _factorizations(N):
+    out = [(1, N), (N, 1)]
+    for a in range(2, N):
+        if N % a == 0:
+            out.append((a, N // a))
+    if N >= 4:
+        out += [(1,) + f for f in out if f[0] != 1 and f[1] != 1][:2] + [(a, 1, N // a) for a in range(2, N) if N % a == 0][:1]
+    return out
+
+
+@st.composite
+def _seed_form(draw, case, driver, steered, smooth=False):
+    """adds point, its storage (dtype kind, shape, layout, list) and - for the vector products - the direction to the case"""
+    N = case['N']
+    x, kind = draw(_point(N, smooth=smooth))
+    # open findings: integer seed dtypes that a driver keeps as coefficient dtype
+    if kind == 'int32' and driver in ('jacobian', 'jac_vec', 'hess_vec', 'smooth:jacobian', 'smooth:hessian') and KF.is_open(KF_INT32):
+        steered.append(KF_INT32)
+        x, kind = x.astype(np.int64), 'int64'
+    if kind == 'int32' and driver == 'hessian' and KF.is_open(KF_HESS_INT):
+        steered.append(KF_HESS_INT)          # int32 polynomial arithmetic overflows: same root cause (integer data kept)
+        x, kind = x.astype(np.int64), 'int64'
+    case['x'], case['pkind'] = x, kind
+    # shape of the seed: vector, or (where the driver takes it) an array of rank >= 2 with N entries
+    rank2 = {'jacobian': 3, 'jac_vec': 2, 'hessian': 3, 'smooth:jacobian': 3, 'hess_vec': 16, 'tensor': 16}.get(driver)
+    if rank2 and draw(st.sampled_from([False] * (rank2 - 1) + [True])):
+        case['xshape'] = tuple(draw(st.sampled_from(_factorizations(N))))
+    shp = _shape(case)
+    case['as_list'] = draw(st.sampled_from([False] * 7 + [True]))
+    if not case['as_list']:
+        case['xlayout'], perm = draw(P.draw_layout(len(shp)))
+        if perm:
+            case['xlayout_perm'] = perm
+    if driver in ('jac_vec', 'hess_vec', 'smooth:jacobian', 'smooth:hessian'):
+        v = draw(_direction(N, prefer_real=(kind in _INT_KINDS)))
+        if smooth:
+            v = np.clip(v, -2, 2)
+        form = 'full'
+        if driver in ('jac_vec', 'smooth:jacobian'):
+            form = draw(st.sampled_from(['full'] * 5 + ['trail', 'col', 'scalar']))
+        if form == 'full':
+            v = v.reshape(shp)
+        elif form == 'trail':
+            v = v[:shp[-1]].copy()
+        elif form == 'col':
+            v = v[:int(np.prod(shp[:-1]))].reshape(shp[:-1] + (1,)).copy()
+        else:
+            v = v[:1].reshape(()).copy()
+        case['v'], case['vform'] = v, form
+        case['vlayout'], perm = draw(P.draw_layout(v.ndim))
+        if perm:
+            case['vlayout_perm'] = perm
+    return kind
 
 
 @st.composite
@@ -291,15 +396,12 @@ def poly_cases(draw, driver, d=None, tier='quick', NS=None):
     elif driver in ('hessian', 'hess_vec'):
         deg = draw(st.sampled_from([1, 2, 2, 3, 3, 4, 5]))
     prog = draw(P.poly_program(N, out, deg=deg))
-    x, kind = draw(_point(N))
-    case = {'prog': prog, 'N': N, 'x': x, 'pkind': kind, 'out': out, 'steered': steered}
-    if driver in ('jac_vec', 'hess_vec'):
-        case['v'] = draw(_direction(N, prefer_real=(kind == 'int64')))
+    case = {'prog': prog, 'N': N, 'out': out, 'steered': steered}
+    draw(_seed_form(case, driver, steered))
     if driver == 'tensor':
         case['d'] = d
     if driver in ('jacobian', 'jac_vec', 'hess_vec'):
         case['dtype_arg'] = draw(st.sampled_from([None, None, None, None, 'float']))
-    case['as_list'] = draw(st.sampled_from([False] * 7 + [True]))
     return case
 
 
@@ -310,32 +412,36 @@ def _nt(case):
     return case['N'] >= 2 and bool(info.get('mixed'))
 
 
+def _form_classes(case):
+    c = ['point=' + case['pkind'], 'seed-rank=%d' % len(_shape(case)), 'xlayout=%s' % ('list' if case.get('as_list') else case.get('xlayout') or 'C')]
+    if case.get('dtype_arg'):
+        c.append('dtype-arg')
+    if 'v' in case:
+        v = np.asarray(case['v'])
+        c += ['v=' + str(v.dtype), 'vform=' + case.get('vform', 'full'), 'vlayout=%s' % (case.get('vlayout') or 'C')]
+        nonint = bool(np.any(v != np.round(v)))
+        c.append('v-noninteger' if nonint else 'v-integer-valued')
+        if case['x'].dtype.kind == 'i':
+            c.append('x-int-dtype&v-noninteger' if nonint else 'x-int-dtype&v-integer-valued')
+    return c
+
+
 def _cl(case):
     info = _INFO.get(id(case), {})
-    c = ['N=%d' % case['N'], 'out=' + case['out'], 'point=' + case['pkind'], 'size=%s' % min(P.size(case['prog']) // 5 * 5, 30)]
+    c = ['N=%d' % case['N'], 'out=' + case['out'], 'size=%s' % min(P.size(case['prog']) // 5 * 5, 30)] + _form_classes(case)
     if 'deg' in info:
         c.append('deg=%d' % info['deg'])
         c.append('mixed=%s' % info['mixed'])
     if 'd' in case and 'deg' in info:
         c.append('deg>=d' if info['deg'] >= case['d'] else 'deg<d')
-    if case.get('as_list'):
-        c.append('seed-as-list')
-    if case.get('dtype_arg'):
-        c.append('dtype-arg')
-    if 'v' in case:
-        v = case['v']
-        c.append('v=' + str(v.dtype))
-        nonint = bool(np.any(v != np.round(v)))
-        c.append('v-noninteger' if nonint else 'v-integer-valued')
-        if case['x'].dtype.kind == 'i':
-            c.append('x-int-dtype&v-noninteger' if nonint else 'x-int-dtype&v-integer-valued')
     for o in sorted(P.ops_used(case['prog'])):
         c.append('op:' + o)
     return c
 
 
 # ---------------------------------------------------------------------------
-# smooth programs: mpmath reference + relations between the drivers
+# smooth / rational programs: mpmath reference + relations between the drivers.  The seed point may be stored with an
+# integer dtype or as float32; the reference is always computed from the float64 VALUE of the point.
 # ---------------------------------------------------------------------------
 
 def _mp_backend():
@@ -351,12 +457,19 @@ def _mp_eval(prog, xs, B):
     return out if isinstance(out, np.ndarray) else P._box(out)
 
 
+class _mp40:
+    def __enter__(self):
+        self.old = mpmath.mp.dps
+        mpmath.mp.dps = 40
+
+    def __exit__(self, *a):
+        mpmath.mp.dps = self.old
+
+
 def _mp_jacobian(prog, x0, out_shape):
     N = len(x0)
     B = _mp_backend()
-    old = mpmath.mp.dps
-    mpmath.mp.dps = 40
-    try:
+    with _mp40():
         xs = [mpmath.mpf(float(v)) for v in x0]
         J = np.zeros(tuple(out_shape) + (N,))
         for j in range(N):
@@ -367,108 +480,151 @@ def _mp_jacobian(prog, x0, out_shape):
                     return _mp_eval(prog, y, B)[idx]
                 J[idx + (j,)] = float(mpmath.diff(g, 0))
         return J
-    finally:
-        mpmath.mp.dps = old
+
+
+def _mp_partial(prog, x0, alpha, out_shape):
+    """d^alpha f (x0) for every output component (float ndarray of the output shape); numerical differentiation"""
+    B = _mp_backend()
+    act = [i for i, a in enumerate(alpha) if a > 0]
+    with _mp40():
+        xs = [mpmath.mpf(float(v)) for v in x0]
+        res = np.zeros(out_shape)
+        for idx in np.ndindex(*out_shape):
+            def g(*ts, idx=idx):
+                y = list(xs)
+                for i, t in zip(act, ts):
+                    y[i] = y[i] + t
+                return _mp_eval(prog, y, B)[idx]
+            if not act:
+                res[idx] = float(g())
+            elif len(act) == 1:
+                res[idx] = float(mpmath.diff(g, 0, alpha[act[0]]))
+            else:
+                res[idx] = float(mpmath.diff(g, tuple(0 for _ in act), tuple(alpha[i] for i in act)))
+        return res
 
 
 def _mp_hessian(prog, x0):
     N = len(x0)
-    B = _mp_backend()
-    old = mpmath.mp.dps
-    mpmath.mp.dps = 40
-    try:
-        xs = [mpmath.mpf(float(v)) for v in x0]
-        H = np.zeros((N, N))
-        for i in range(N):
-            def g(t, i=i):
-                y = list(xs)
-                y[i] = y[i] + t
-                return _mp_eval(prog, y, B)[()]
-            H[i, i] = float(mpmath.diff(g, 0, 2))
-            for j in range(i + 1, N):
-                def g2(a, b, i=i, j=j):
-                    y = list(xs)
-                    y[i] = y[i] + a
-                    y[j] = y[j] + b
-                    return _mp_eval(prog, y, B)[()]
-                H[i, j] = H[j, i] = float(mpmath.diff(g2, (0, 0), (1, 1)))
-        return H
-    finally:
-        mpmath.mp.dps = old
+    H = np.zeros((N, N))
+    for i in range(N):
+        for j in range(i, N):
+            a = [0] * N
+            a[i] += 1
+            a[j] += 1
+            H[i, j] = H[j, i] = _mp_partial(prog, x0, a, ())[()]
+    return H
+
+
+def _dry_run(case):
+    y0 = np.asarray(P.run(case['prog'], case['x'].astype(float), P.BackendFloat()), dtype=float)   # harness: shape, finiteness
+    if not np.all(np.isfinite(y0)):
+        raise Inconclusive('program not finite at the point')
+    return y0
+
+
+def _unit(case, j):
+    e = np.zeros(case['N'])
+    e[j] = 1.0
+    return e.reshape(_shape(case))
 
 
 def prop_smooth_jacobian(case, stats):
     _note_steered(case, stats)
     N = case['N']
-    x = case['x']
     prog = case['prog']
-    y0 = np.asarray(P.run(prog, x.astype(float), P.BackendFloat()), dtype=float)      # harness dry run (shape, finiteness)
-    if not np.all(np.isfinite(y0)):
-        raise Inconclusive('program not finite at the point')
-    Y = _evaluate(case, guard(UTPM.init_jacobian, x.copy()))
+    y0 = _dry_run(case)
+    xv = case['x'].astype(float)
+    Y = _evaluate(case, guard(UTPM.init_jacobian, _seed(case)))
     J = np.asarray(guard(UTPM.extract_jacobian, Y))
-    ref = _mp_jacobian(prog, x, y0.shape)
+    ref = _mp_jacobian(prog, xv, y0.shape)
     scale = max(1.0, float(np.max(np.abs(ref))) if ref.size else 1.0)
-    _compare(J, ref, scale, 1e-9, stats, 'extract_jacobian(f(init_jacobian(x))) vs mpmath')
+    tol = _tol(case, 'jacobian', 1e-9)
     _INFO.clear()
     _INFO[id(case)] = {'nt': bool(np.any((ref != 0).sum(axis=-1) >= 2))}
+    _compare(J, ref, scale, tol, stats, 'extract_jacobian(f(init_jacobian(x))) vs mpmath')
     # column j of the Jacobian == Jacobian-vector product with e_j
     for j in range(N):
-        e = np.zeros(N)
-        e[j] = 1.0
-        Yj = _evaluate(case, guard(UTPM.init_jac_vec, x.copy(), e))
+        Yj = _evaluate(case, guard(UTPM.init_jac_vec, _seed(case), _unit(case, j)))
         col = guard(UTPM.extract_jac_vec, Yj)
-        _compare(col, J[..., j], scale, 1e-9, stats, 'extract_jac_vec with v = e_%d vs column %d of extract_jacobian' % (j, j))
-    v = case['v']
-    Yv = _evaluate(case, guard(UTPM.init_jac_vec, x.copy(), v.copy()))
+        _compare(col, ref[..., j], scale, tol, stats, 'extract_jac_vec with v = e_%d vs column %d of the Jacobian (mpmath)' % (j, j))
+        _compare(col, J[..., j], scale, tol, stats, 'extract_jac_vec with v = e_%d vs column %d of extract_jacobian' % (j, j))
+    v = _veff(case).astype(float)
+    Yv = _evaluate(case, guard(UTPM.init_jac_vec, _seed(case), _vpass(case)))
     jv = guard(UTPM.extract_jac_vec, Yv)
     vs = max(1.0, float(np.max(np.abs(v))))
-    _compare(jv, ref @ v.astype(float), scale * vs, 1e-9, stats, 'extract_jac_vec(f(init_jac_vec(x,v))) vs mpmath J v')
+    _compare(jv, ref @ v, scale * vs, tol, stats, 'extract_jac_vec(f(init_jac_vec(x,v))) vs mpmath J v')
 
 
 def prop_smooth_hessian(case, stats):
+    _note_steered(case, stats)
     N = case['N']
-    x = case['x']
     prog = case['prog']
-    y0 = np.asarray(P.run(prog, x.astype(float), P.BackendFloat()), dtype=float)
-    if y0.shape != () or not np.isfinite(y0):
-        raise Inconclusive('program not finite at the point')
-    H = np.asarray(guard(UTPM.extract_hessian, N, _evaluate(case, guard(UTPM.init_hessian, x.copy()))))
-    ref = _mp_hessian(prog, x)
+    y0 = _dry_run(case)
+    if y0.shape != ():
+        raise AssertionError('scalar program expected')
+    xv = case['x'].astype(float)
+    ref = _mp_hessian(prog, xv)
     scale = max(1.0, float(np.max(np.abs(ref))))
     _INFO.clear()
     _INFO[id(case)] = {'nt': bool(np.any(ref[~np.eye(N, dtype=bool)] != 0))}
-    _compare(H, ref, scale, 1e-9, stats, 'extract_hessian(N, f(init_hessian(x))) vs mpmath')
-    T = guard(UTPM.extract_tensor, N, _evaluate(case, guard(UTPM.init_tensor, 2, x.copy())))
-    _compare(T, H, scale, 1e-9, stats, 'extract_tensor(N, f(init_tensor(2,x))) vs extract_hessian')
+    if not case.get('skip_init_hessian'):
+        H = np.asarray(guard(UTPM.extract_hessian, N, _evaluate(case, guard(UTPM.init_hessian, _seed(case)), flat=True)))
+        _compare(H, ref, scale, _tol(case, 'hessian', 1e-9), stats, 'extract_hessian(N, f(init_hessian(x))) vs mpmath')
+    T = guard(UTPM.extract_tensor, N, _evaluate(case, guard(UTPM.init_tensor, 2, _seed(case))))
+    _compare(T, ref, scale, 1e-9, stats, 'extract_tensor(N, f(init_tensor(2,x))) vs mpmath Hessian')
+    tol = _tol(case, 'hess_vec', 1e-9)
     for j in range(N):
-        e = np.zeros(N)
-        e[j] = 1.0
-        col = guard(UTPM.extract_hess_vec, N, _evaluate(case, guard(UTPM.init_hess_vec, x.copy(), e)))
-        _compare(col, H[:, j], scale, 1e-9, stats, 'extract_hess_vec with v = e_%d vs column %d of extract_hessian' % (j, j))
-    v = case['v']
-    hv = guard(UTPM.extract_hess_vec, N, _evaluate(case, guard(UTPM.init_hess_vec, x.copy(), v.copy())))
+        col = guard(UTPM.extract_hess_vec, N, _evaluate(case, guard(UTPM.init_hess_vec, _seed(case), _unit(case, j))))
+        _compare(col, ref[:, j], scale, tol, stats, 'extract_hess_vec with v = e_%d vs column %d of the Hessian (mpmath)' % (j, j))
+    v = _veff(case).astype(float)
+    hv = guard(UTPM.extract_hess_vec, N, _evaluate(case, guard(UTPM.init_hess_vec, _seed(case), _vpass(case))))
     vs = max(1.0, float(np.max(np.abs(v)))) ** 2
-    _compare(hv, ref @ v.astype(float), scale * vs, 1e-9, stats, 'extract_hess_vec(N, f(init_hess_vec(x,v))) vs mpmath H v')
+    _compare(hv, ref @ v, scale * vs, tol, stats, 'extract_hess_vec(N, f(init_hess_vec(x,v))) vs mpmath H v')
+
+
+def prop_smooth_tensor(case, stats):
+    """all d-th partials / alpha! of a smooth or rational program, also at integer-dtype and float32 seed points"""
+    _note_steered(case, stats)
+    N, d = case['N'], case['d']
+    prog = case['prog']
+    y0 = _dry_run(case)
+    xv = case['x'].astype(float)
+    Y = _evaluate(case, guard(UTPM.init_tensor, d, _seed(case)))
+    T = guard(lambda n, y: UTPM.extract_tensor(n, y, as_full_matrix=False), N, Y)
+    rows = [tuple(int(a) for a in r) for r in np.asarray(guard(exint.generate_multi_indices, N, d))]
+    if sorted(rows) != sorted(compositions(d, N)):
+        raise Violation('generate_multi_indices(%d,%d) is not the set of multi-indices of order %d: %s' % (N, d, d, rows))
+    ref = np.stack([_mp_partial(prog, xv, alpha, y0.shape) / P.factorial_multi(alpha) for alpha in rows], axis=0)
+    # magnitude of the terms: the interpolation combines d-th Taylor coefficients along rays with entries up to d
+    scale = max(1.0, float(np.max(np.abs(ref)))) * float(d) ** d
+    _INFO.clear()
+    _INFO[id(case)] = {'nt': any(sum(1 for a in alpha if a) >= 2 and np.any(ref[k] != 0) for k, alpha in enumerate(rows))}
+    _compare(T, ref, scale, 1e-9, stats, 'extract_tensor(N, f(init_tensor(%d,x)), as_full_matrix=False) vs mpmath' % d)
 
 
 @st.composite
-def smooth_cases(draw, which):
+def smooth_cases(draw, which, d=None):
     steered = []
-    N = draw(st.sampled_from([1, 2, 2, 3, 3, 4]))
-    el = st.one_of(st.integers(-12, 12).map(lambda k: k / 8.0), gen.nice_floats(-1.5, 1.5))
-    x = np.array(draw(st.lists(el, min_size=N, max_size=N)), dtype=float)
+    N = draw(st.sampled_from([1, 2, 2, 3, 3, 4] if which != 'tensor' else {1: [1, 2, 3, 4], 2: [1, 2, 2, 3, 3], 3: [1, 2, 2, 3]}[d]))
+    case = {'N': N, 'steered': steered}
+    kind = draw(_seed_form(case, {'jacobian': 'smooth:jacobian', 'hessian': 'smooth:hessian', 'tensor': 'tensor'}[which], steered, smooth=True))
     if which == 'hessian':
         out = 'scalar'
+        if case['x'].dtype.kind in 'iu' and KF.is_open(KF_HESS_INT):
+            steered.append(KF_HESS_INT)
+            case['skip_init_hessian'] = True
+    elif which == 'tensor':
+        out = draw(st.sampled_from(['scalar', 'scalar', 'vector']))
+        case['d'] = d
     else:
         out = draw(st.sampled_from(['scalar', 'vector', 'vector', 'matrix']))
         if out != 'vector' and KF.is_open(KF_JV):
             steered.append(KF_JV)
             out = 'vector'
-    prog = draw(P.smooth_program(N, x, out))
-    vel = st.one_of(st.integers(-8, 8).map(lambda k: k / 4.0), gen.nice_floats(-2.0, 2.0))
-    v = np.array(draw(st.lists(vel, min_size=N, max_size=N)), dtype=float)
-    return {'prog': prog, 'N': N, 'x': x, 'v': v, 'out': out, 'pkind': 'real', 'steered': steered}
+    case['out'] = out
+    case['prog'] = draw(P.smooth_program(N, case['x'].astype(float), out))
+    return case
 
 
 def _nt_smooth(case):
@@ -476,8 +632,16 @@ def _nt_smooth(case):
 
 
 def _cl_smooth(case):
-    c = ['N=%d' % case['N'], 'out=' + case['out'], 'smooth', 'size=%s' % min(P.size(case['prog']) // 5 * 5, 30)]
-    for o in sorted(P.ops_used(case['prog'])):
+    c = ['N=%d' % case['N'], 'out=' + case['out'], 'smooth', 'size=%s' % min(P.size(case['prog']) // 5 * 5, 30)] + _form_classes(case)
+    ops = P.ops_used(case['prog'])
+    c.append('rational' if ('div' in ops or 'cdiv' in ops) else 'no-division')
+    if case['x'].dtype.kind in 'iu':
+        c.append('smooth@integer-dtype-point')
+    if case['x'].dtype == np.float32:
+        c.append('smooth@float32-point')
+    if case.get('skip_init_hessian'):
+        c.append('init_hessian-skipped')
+    for o in sorted(ops):
         c.append('op:' + o)
     return c
 
@@ -504,11 +668,14 @@ def buckets(tier):
                shards=q(2, 6), weight=2.0),
         Bucket('poly:hess_vec', lambda: poly_cases('hess_vec'), prop_poly_hess_vec, q(150, 800), nontrivial=_nt, classes=_cl,
                shards=q(2, 6), weight=2.0),
-        Bucket('smooth:jacobian', lambda: smooth_cases('jacobian'), prop_smooth_jacobian, q(40, 250), nontrivial=_nt_smooth,
+        Bucket('smooth:jacobian', lambda: smooth_cases('jacobian'), prop_smooth_jacobian, q(50, 250), nontrivial=_nt_smooth,
                classes=_cl_smooth, shards=q(2, 6), weight=10.0),
-        Bucket('smooth:hessian', lambda: smooth_cases('hessian'), prop_smooth_hessian, q(40, 250), nontrivial=_nt_smooth,
+        Bucket('smooth:hessian', lambda: smooth_cases('hessian'), prop_smooth_hessian, q(50, 250), nontrivial=_nt_smooth,
                classes=_cl_smooth, shards=q(2, 6), weight=15.0),
     ]
+    for d in (1, 2, 3):
+        bl.append(Bucket('smooth:tensor:d=%d' % d, (lambda d=d: smooth_cases('tensor', d=d)), prop_smooth_tensor, q(30, 200),
+                         nontrivial=_nt_smooth, classes=_cl_smooth, shards=q(1, 4), weight=10.0 * d))
     for d in range(1, 6):
         bl.append(Bucket('poly:tensor:d=%d' % d, (lambda d=d: poly_cases('tensor', d=d, tier=tier, NS=_tensor_NS(d, tier))),
                          prop_poly_tensor, {1: q(60, 500), 2: q(60, 400), 3: q(25, 90), 4: q(25, 70), 5: q(25, 40)}[d], nontrivial=_nt, classes=_cl,
